@@ -49,6 +49,14 @@ def cases(tier, inst):
                         forms += ["nested"]
                     for form in forms:
                         yield {"streams": ms, "part": list(part), "uset": ui, "form": form, "inst": list(inst)}
+                    if ui in (0, 1) and (n == 2 or tier == "thorough"):
+                        # every stream with the same name (identical parallel trains), and unit-operation targeting switched on
+                        yield {"streams": ms, "part": list(part), "uset": ui, "form": "flat", "inst": list(inst), "samenames": True}
+                        yield {"streams": ms, "part": list(part), "uset": ui, "form": "flat", "inst": list(inst), "optarget": True}
+    # two identical same-named streams inside ONE zone next to a second zone
+    for ms in P.stream_multisets(inst, 3, 2, cps=(1, 2), dts=(1,), iso=False, min_n=2):
+        for ui in (0, 1):
+            yield {"streams": [ms[0], ms[0], ms[1]], "part": [0, 0, 1], "uset": ui, "form": "flat", "inst": list(inst), "samenames": True}
 
 
 def build(case):
@@ -65,13 +73,15 @@ def build(case):
         tree = None
         if case["form"] == "tree":
             tree = {"name": "Plant", "type": "Site", "children": [{"name": names[b], "type": "Process Zone"} for b in sorted(set(part))]}
-    return A.problem(streams, zones, utilities=usets(inst)[case["uset"]], zone_tree=tree)
+    return A.problem(streams, zones, utilities=usets(inst)[case["uset"]], zone_tree=tree,
+                     names=["S"] * len(streams) if case.get("samenames") else None,
+                     options={"DO_DIRECT_OPERATION_TARGETING": True} if case.get("optarget") else None)
 
 
 def run(case, res: Result):
     prob = build(case)
     out, master = S.run(prob)
-    tag = f"{case['form']}:u{case['uset']}"
+    tag = f"{case['form']}:u{case['uset']}" + (":samenames" if case.get("samenames") else "") + (":optarget" if case.get("optarget") else "")
     tot = sum(abs(S.st_of(s)[2]) for s in prob["streams"])
     eps = 1e-6 * tot
     site = master
